@@ -8,6 +8,10 @@
 (*   "stall"   the same with the 30 s time-out behaviour, one query        *)
 (*   "cache"   representative behaviour pairs x every admissible sequence  *)
 (*             of query / tick / reopen / flip of length D                 *)
+(*   "renew"   TTL 600 ms and waits of 400 ms: every sequence of query /   *)
+(*             wait / new client of length D over two behaviour sets - a   *)
+(*             hit inside the TTL followed by a query after the original   *)
+(*             expiry (a hit must not renew the time-to-live)              *)
 (*   "split"   the concrete TCP response shapes (byte classes dumped by the*)
 (*             driver, IOEnv.SHAPES) x 1-cut / 2-cut splits                *)
 (* MC_TcpRead (all short byte-class sequences x all splits) and            *)
@@ -20,7 +24,7 @@ CONSTANTS Family,
           HttpBehs, TcpBehs,     \* chain / stall: behaviours assigned to the HTTP(S) endpoints / the TCP endpoint
           Classes,               \* endpoint classes
           D,                     \* cache / cdn: number of operations in a program
-          SplitCls, ShapeSel, CutModes   \* split: class, shapes to use, subset of {"one", "marks1", "marks2", "sparse"}
+          SplitCls, ShapeSel, CutModes   \* split: class, shapes to use, subset of {"one", "marks1", "marks2", "sparse", "mb1", "mb2"}
 
 VARIABLES cfg, st, hist
 
@@ -54,7 +58,15 @@ CachePairs == {
   <<"certs",    Beh3("OkBpsv", "OkBpsv", "Malformed"),    Beh3("OkBpsv", "OkBpsv", "OkBpsv")>> }
 CacheCfgs == {Cfg("cache", c, t, pr[1], pr[2], pr[3]) : c \in {"mem", "disk"}, t \in {"long", "short"}, pr \in CachePairs}
 
+\* ---- renew --------------------------------------------------------------------
+RenewSets == { <<"versions", Beh3("OkBpsv", "OkBpsv", "OkBpsv")>>, <<"summary", Beh3("OkBpsv", "OkBpsv", "OkMime")>>,
+               <<"cdns", Beh3("H503", "Refused", "OkBpsv")>> }
+RenewCfgs == {Cfg("renew", c, "mid", pr[1], pr[2], pr[2]) : c \in {"mem", "disk"}, pr \in RenewSets}
+WaitMs == 400
+QMs == 20              \* nominal duration of a query on the model checker's clock
+
 Q(p) == [op |-> "query", p |-> p]
+OpWait == [op |-> "wait", ms |-> WaitMs]
 OpTick == [op |-> "tick"]
 OpReopen == [op |-> "reopen"]
 OpFlip == [op |-> "flip"]
@@ -66,6 +78,12 @@ CacheOps(c, h) ==
        \cup (IF c.ttl = "short" /\ LastOp(h) # "tick" THEN {OpTick} ELSE {})
        \cup (IF c.cache = "disk" /\ LastOp(h) # "reopen" THEN {OpReopen} ELSE {})
        \cup (IF \A i \in 1..Len(h) : h[i].op # "flip" THEN {OpFlip} ELSE {})
+\* renew: a wait between any two queries at most twice in a row, a new client (disk) not twice in a row
+RenewOps(c, h) ==
+  IF h = <<>> \/ Len(h) = D - 1 THEN {Q(1)}
+  ELSE {Q(1)}
+       \cup (IF Len(h) < 2 \/ h[Len(h)].op # "wait" \/ h[Len(h) - 1].op # "wait" THEN {OpWait} ELSE {})
+       \cup (IF c.cache = "disk" /\ LastOp(h) # "reopen" THEN {OpReopen} ELSE {})
 
 \* ---- split --------------------------------------------------------------------
 \* The shapes are the driver's concretisation table (drv_failover --dump-shapes <class>): per shape the
@@ -75,39 +93,53 @@ Shapes == ndJsonDeserialize(IOEnv.SHAPES)
 ShapeR(s) == [len |-> s.len, nl |-> SetOfSeq(s.nl), mime_at |-> s.mime_at, nb512 |-> s.nb512,
               prefix |-> {<<s.blank[i], "trunc">> : i \in 1..Len(s.blank)}]
 RespOf(c) == IF c.sh = 0 THEN c.resp ELSE ShapeR(Shapes[c.sh])
+\* cut positions inside a multi-byte character of the shape (non-ASCII shapes)
+Mb(i) == SetOfSeq(Shapes[i].mb)
 Landmarks(r) == {c \in 1..(r.len - 1) :
                    \/ c \in r.nl \/ (c + 1) \in r.nl \/ (c - 1) \in r.nl
                    \/ c \in {r.mime_at - 1, r.mime_at, r.mime_at + 1, 511, 512, 513}
                    \/ c % 8192 = 0}
 Sparse(r) == {c \in 1..(r.len - 1) : NN(r, c) \/ NN(r, c + 1) \/ c % 8192 = 0 \/ c \in {r.mime_at - 1, r.mime_at, 512}}
-CutSets(r) ==
+\* "mb1": unsplit, every cut inside a multi-byte character, every read-buffer boundary; "mb2": pairs of those
+CutSets(r, mb) ==
+  LET marks == Landmarks(r) \cup mb
+      inside == mb \cup {c \in 1..(r.len - 1) : c % 8192 = 0}
+  IN
   (IF "one" \in CutModes THEN {<<c>> : c \in 1..(r.len - 1)} ELSE {})
-  \cup (IF "marks1" \in CutModes THEN {<<c>> : c \in Landmarks(r)} ELSE {})
+  \cup (IF "marks1" \in CutModes THEN {<<c>> : c \in marks} ELSE {})
   \cup (IF "sparse" \in CutModes THEN {<<c>> : c \in Sparse(r)} \cup {<<>>} ELSE {})
-  \cup (IF "marks2" \in CutModes THEN {<<q[1], q[2]>> : q \in {z \in Landmarks(r) \X Landmarks(r) : z[1] < z[2]}} ELSE {})
+  \cup (IF "mb1" \in CutModes THEN {<<c>> : c \in inside} \cup {<<>>} ELSE {})
+  \cup (IF "mb2" \in CutModes THEN {<<q[1], q[2]>> : q \in {z \in inside \X inside : z[1] < z[2]}} ELSE {})
+  \cup (IF "marks2" \in CutModes THEN {<<q[1], q[2]>> : q \in {z \in marks \X marks : z[1] < z[2]}} ELSE {})
 SplitBeh == IF TcpOnly(SplitCls) THEN Beh3("OkBpsv", "OkBpsv", "OkBpsv") ELSE Beh3("Refused", "H503", "OkBpsv")
 SplitCfgsOk ==
   UNION {{[Cfg("split", "mem", "long", SplitCls, SplitBeh, SplitBeh) EXCEPT !.sh = i, !.shape = Shapes[i].shape, !.cuts = cs] :
-            cs \in CutSets(ShapeR(Shapes[i]))} : i \in {j \in 1..Len(Shapes) : Shapes[j].shape \in ShapeSel}}
+            cs \in CutSets(ShapeR(Shapes[i]), Mb(i))} : i \in {j \in 1..Len(Shapes) : Shapes[j].shape \in ShapeSel}}
 
 \* ---- the machine ----------------------------------------------------------------
 Cfgs == CASE Family = "chain" -> ChainCfgsOk
           [] Family = "stall" -> StallCfgs
           [] Family = "cache" -> CacheCfgs
+          [] Family = "renew" -> RenewCfgs
           [] Family = "split" -> SplitCfgsOk
 
-Len0 == CASE Family = "chain" -> 2 [] Family = "stall" -> 1 [] Family = "cache" -> D [] Family = "split" -> 1
+Len0 == CASE Family = "chain" -> 2 [] Family = "stall" -> 1 [] Family \in {"cache", "renew"} -> D [] Family = "split" -> 1
 
 OpsNow == CASE Family = "cache" -> CacheOps(cfg, hist)
+            [] Family = "renew" -> RenewOps(cfg, hist)
             [] OTHER -> {Q(1)}
+
+\* a query that starts now: [now, now + QMs] on the nominal clock (st.t1 = now)
+Probe(s) == At(s, s.t1, s.t1 + QMs)
 
 MCInit == cfg \in Cfgs /\ st = St0(cfg) /\ hist = <<>>
 
 Do(op) ==
   /\ hist' = Append(hist, op)
   /\ cfg' = cfg
-  /\ CASE op.op = "query"  -> \E o \in Outcomes(cfg, st, op.p, AnyDocs) : st' = After(cfg, st, op.p, o)
+  /\ CASE op.op = "query"  -> \E o \in Outcomes(cfg, Probe(st), op.p, AnyDocs) : st' = After(cfg, Probe(st), op.p, o)
        [] op.op = "tick"   -> st' = TickSt(st)
+       [] op.op = "wait"   -> st' = WaitSt(st, op.ms)
        [] op.op = "reopen" -> st' = ReopenSt(cfg, st)
        [] op.op = "flip"   -> st' = FlipSt(cfg, st)
 
@@ -115,16 +147,16 @@ MCNext == Len(hist) < Len0 /\ \E op \in OpsNow : Do(op)
 
 \* ---- the statement on every reachable state (KnownDeviations = {}) --------------
 Paths == {1, 2}
-InvOrder       == \A p \in Paths : ClauseOrder(cfg, st, p, AnyDocs)
-InvTcpOnly     == \A p \in Paths : ClauseTcpOnly(cfg, st, p, AnyDocs)
-InvMoveOn      == \A p \in Paths : ClauseMoveOn(cfg, st, p, AnyDocs)
-InvFirstAnswer == \A p \in Paths : ClauseFirstAnswer(cfg, st, p, AnyDocs)
-InvErr         == \A p \in Paths : ClauseErr(cfg, st, p, AnyDocs)
-InvWithinTtl   == \A p \in Paths : ClauseWithinTtl(cfg, st, p, AnyDocs)
-InvAfterTtl    == \A p \in Paths : ClauseAfterTtl(cfg, st, p, AnyDocs)
-InvNoPanic     == \A p \in Paths : ClauseNoPanic(cfg, st, p, AnyDocs)
+InvOrder       == \A p \in Paths : ClauseOrder(cfg, Probe(st), p, AnyDocs)
+InvTcpOnly     == \A p \in Paths : ClauseTcpOnly(cfg, Probe(st), p, AnyDocs)
+InvMoveOn      == \A p \in Paths : ClauseMoveOn(cfg, Probe(st), p, AnyDocs)
+InvFirstAnswer == \A p \in Paths : ClauseFirstAnswer(cfg, Probe(st), p, AnyDocs)
+InvErr         == \A p \in Paths : ClauseErr(cfg, Probe(st), p, AnyDocs)
+InvWithinTtl   == \A p \in Paths : ClauseWithinTtl(cfg, Probe(st), p, AnyDocs)
+InvAfterTtl    == \A p \in Paths : ClauseAfterTtl(cfg, Probe(st), p, AnyDocs)
+InvNoPanic     == \A p \in Paths : ClauseNoPanic(cfg, Probe(st), p, AnyDocs)
 InvCacheGood   == ClauseCacheGood(cfg, st, AnyDocs \cup {pr[2] : pr \in cfg.resp.prefix})
-InvSomeOutcome == \A p \in Paths : Outcomes(cfg, st, p, AnyDocs) # {}      \* the statement never forbids everything
+InvSomeOutcome == \A p \in Paths : Outcomes(cfg, Probe(st), p, AnyDocs) # {}      \* the statement never forbids everything
 \* split: the code-shaped reader returns the whole response on this split, unless the shape is not Safe
 InvSplit == Family = "split" =>
               LET r == RespOf(cfg) IN ReadCode(r, SetOfSeq(cfg.cuts)) = r.len \/ ~Safe(r)
